@@ -66,7 +66,7 @@ claimed = {
    note="Trusted: the compiler introduces no secret-dependent branches; ALU/SSE instruction latencies are data-independent; sha512/subtle/bits/binary and x/crypto ScalarMult are constant-time. Memory abstracted to one secrecy bit per allocation site (sound over-approximation). No input exists for a timing property: violations are reported with no-failing-input-found.",
    ref="DESIGN.md §6 C20, §7 F2"),
  "C04": dict(
-   text="scMinimal is verified against the contract result == (S < L) for all 2^256 byte strings on the real code (the comparison loop runs with a concrete counter); a counterexample is replayed on the real function. The pinned tree violated it for every S in [2^252, L) (repaired by a fix: commit, see known_findings.json). That single, batch, default and ZIP-215 verification consult this function before accepting is part of the verify/VerifyBatch contracts (C01/C06).",
+   text="scMinimal is verified against the contract result == (S < L) for all 2^256 byte strings on the real code (the comparison loop runs with a concrete counter); a counterexample is replayed on the real function. The pinned tree violated it for every S in [2^252, L) (repaired by a fix: commit, see known_findings.json). The cone also contains its consumers: verify (S >= L => rejected, part of vspec), VerifyBatch (an entry with S >= L is reported false and never flips another entry: G1/G2 bookkeeping) and the scalar parsing modm.Expand/reduce/barrettReduce/Contract on both limb layouts (S is used as exactly the integer it encodes).",
    note="Trusted: go/ssa, govc, solvers. Uniqueness of the accepted S follows from S < L and the verification equation with M4 (L prime order); it is not a separate machine-checked lemma.",
    ref="DESIGN.md §6 C04, §7 F1"),
  "C19": dict(
